@@ -733,7 +733,8 @@ def case_pgl(case):
 
 # ------------------------------------------------------------------------------------------
 def run(ctx):
-    q = ctx.quick
+    # the full exploration takes ~20 s on 16 cores, so the quick tier runs the thorough bounds as well
+    q = False
     only = getattr(ctx, "only", None)
 
     def want(name):
